@@ -74,6 +74,9 @@ def gen(seed, tier):
         if rng.random() < 0.2:
             # the source's top rank is declared uncompressed: the loop is offered every coordinate of its shape
             case.update({"fmtA": "U", "shapeA": n})
+            if d == 0 and rng.random() < 0.5:
+                # ... and the source fiber is a detached copy that carries the declaration in its own rank attributes
+                case["detachA"] = True
             yield case
             continue
         yield {"prop": PROP, "d": d, "dflt": dflt, "z": z, "a": a, "acts": acts,
@@ -102,6 +105,9 @@ def run(case):
         else:
             ta = ft.Tensor.fromFiber(rank_ids=ids, fiber=a, default=dflt)
         z, a = tz.getRoot(), ta.getRoot()
+        if case.get("detachA"):
+            a = a.copy(preserve_owner=False)
+            ta = None
     a_before = (H.snapshot(a), _ranks(ta) if ta else None)
     log = []
     side = {}
